@@ -172,6 +172,10 @@ LEAF_OPS = ("term", "phrase", "prefix", "wildcard", "regex", "trange", "nrange",
             "null")
 
 
+BOOSTABLE = ("term", "phrase", "prefix", "wildcard", "regex", "trange", "nrange", "drange", "fuzzy", "every", "and",
+             "or", "dismax")
+
+
 def run(case, out):
     hist = case["hist"]
     ix, model = corpus.build(hist, "ram", None, ref_eval, to_whoosh)
@@ -304,6 +308,34 @@ def run(case, out):
                 ksets = []
             if nseg >= 2 and any(any(k not in ks for ks in ksets) for k in got):
                 nt.append([wcfg["kind"], shape(qj), nseg])
+        # ---- boost law: "each multiplied by query ... boosts".  Multiplying the boost of a query by f, or wrapping
+        # the query as the only clause of an And / Or / DisjunctionMax with boost f, multiplies every score by f
+        if not is_final:
+            for qi, qj in enumerate(case["queries"]):
+                f = (2.0, 0.5, 3.0)[qi % 3]
+                variants = []
+                if qj["op"] in BOOSTABLE:
+                    variants.append(("boost_of_%s" % qj["op"], dict(qj, boost=qj.get("boost", 1.0) * f)))
+                for wrap in ("or", "and", "dismax"):
+                    variants.append(("only_clause_of_%s" % wrap, {"op": wrap, "qs": [qj], "boost": f}))
+                try:
+                    base, _ = run_alone(s, to_whoosh(qj))
+                    for name, v in variants:
+                        got, _ = run_alone(s, to_whoosh(v))
+                        out.units += 1
+                        if set(got) != set(base):
+                            out.fail("c09.boost_law:docs:%s" % name, {"q": qj, "got": sorted(got), "expected": sorted(base)})
+                            break
+                        bad = [k for k in sorted(base) if not close(got[k], f * base[k], 1e-6)]
+                        if bad:
+                            out.fail("c09.boost_law:%s" % name, {"q": qj, "factor": f, "doc": bad[0], "got": got[bad[0]],
+                                                                 "unboosted": base[bad[0]], "weighting": wcfg["kind"]})
+                            break
+                except (ValueError, ZeroDivisionError, OverflowError):
+                    if wcfg["kind"] in ("pl2", "dfree"):
+                        out.exclude("formula_domain_error")
+                        continue
+                    raise
     finally:
         s.close()
         if raw is not s:
